@@ -193,7 +193,19 @@ func genC16(g *prng.R) c16Case {
 		}
 		act["object"] = objs
 		if g.Bool() {
-			sc.Store[alice()+"/liked"] = M{"@context": AS, "type": "Collection", "id": alice() + "/liked", "items": A{R2 + "/notes/old1", R2 + "/notes/old2"}}
+			old := A{R2 + "/notes/old1", R2 + "/notes/old2"}
+			// an object liked before is liked again: its id still goes to
+			// the front
+			if g.Chance(1, 2) {
+				for _, id := range ids {
+					if g.Bool() {
+						at := g.Intn(len(old) + 1)
+						old = append(old[:at:at], append(A{id}, old[at:]...)...)
+					}
+				}
+				cs.Info["relike"] = true
+			}
+			sc.Store[alice()+"/liked"] = M{"@context": AS, "type": "Collection", "id": alice() + "/liked", "items": old}
 		}
 		cs.Front[alice()+"/liked"] = ids
 	case "Block":
@@ -293,7 +305,15 @@ func init() {
 				before := collectionItems(res.Before, col)
 				after := collectionItems(res.After, col)
 				k := min(len(news), len(after))
-				if len(after) != len(before)+len(news) || !sameMultiset(after[:k], news) || !eqStrings(after[k:], before) {
+				// the statement fixes the front; whether an earlier entry
+				// of a re-liked id stays further back is the library's choice
+				var beforeMoved []string
+				for _, b := range before {
+					if !contains(news, b) {
+						beforeMoved = append(beforeMoved, b)
+					}
+				}
+				if len(after) < len(news) || !sameMultiset(after[:k], news) || (!eqStrings(after[k:], before) && !eqStrings(after[k:], beforeMoved)) {
 					viol("collection-front", site, cs.Typ, fmt.Sprintf("%s = %v, want %v in front of %v", col, after, news, before))
 				}
 			}
